@@ -65,6 +65,9 @@ def intro? : Phase → Option (Nat × Nat)
 def tRet? : Phase → Option Nat
   | returned _ _ _ _ _ t => some t
   | _ => none
+def tPrep? : Phase → Option Nat
+  | invoked _ _ => none
+  | prepared _ _ _ _ t | introduced _ _ t _ _ _ | returned _ _ t _ _ _ => some t
 def isInvoked : Phase → Bool
   | invoked _ _ => true
   | _ => false
@@ -91,6 +94,8 @@ structure Slot where
   /-- whose batch it introduced, where that was observed (the new segment's documents carry the call number);
   `none` for a batch without documents (delete-only / empty: no new segment) -/
   who : Option Nat
+  /-- the live documents of the root installed (what a reader obtained right then shows) -/
+  content : List Doc
 deriving Repr, DecidableEq
 
 /-- what a reader got: the root's epoch and content, when, and (ghost) how many batches that root had applied -/
@@ -152,7 +157,8 @@ def stepCore (s : State) : Ev → State
                lin := s.lin ++ [c],
                pubs := ⟨s.core.applied.length + 1, s.clock⟩ :: s.pubs,
                -- the new root carries epoch `nextEpoch`
-               slots := s.slots ++ [⟨s.core.nextEpoch, s.clock, some c⟩] }
+               slots := s.slots ++ [⟨s.core.nextEpoch, s.clock, some c,
+                                     (Index.step s.core (.batch b (s.seenIdx seenNo) sid)).root.abs⟩] }
     | _ => s
   | .ack cs =>
     { s with phase := fun x => (s.phase x).map (fun p => p.ack (cs.contains x)) }
@@ -210,6 +216,15 @@ def introOrder : List Ev → List Nat
   | .intro c :: evs => c :: introOrder evs
   | _ :: evs => introOrder evs
 
+/-- the batch of the (first) `Invoke c` event of an execution (`Batch.empty` if there is none) -/
+def invokeOf (c : Nat) : Ev → Option Batch
+  | .invoke c' b => if c' = c then some b else none
+  | _ => none
+def batchIn (evs : List Ev) (c : Nat) : Batch := (evs.findSome? (invokeOf c)).getD Batch.empty
+
+/-- `c` stands before `c'` in the order `l` -/
+def Before (l : List Nat) (c c' : Nat) : Prop := ∃ p q : Nat, p < q ∧ l[p]? = some c ∧ l[q]? = some c'
+
 /-- the batch client `c` invoked (`Batch.empty` if it never did) -/
 def State.batchOf (s : State) (c : Nat) : Batch := ((s.phase c).map Phase.batch).getD Batch.empty
 
@@ -225,6 +240,9 @@ structure Call where
   /-- `none`: the call has not returned -/
   tRet : Option Nat
   b : Batch
+  /-- stamp taken when `prepareSegment` of this call was first seen computing obsoletes (after it read the root);
+  `none`: not observed -/
+  tPrep : Option Nat := none
 deriving Repr, DecidableEq
 
 /-- one reader: stamps before `Writer.Reader()` was called and after it returned, the epoch and content of what it got -/
@@ -264,9 +282,15 @@ def OrderOK (h : History) (order : List Nat) : Prop :=
   (∀ a ∈ h.calls, a.tRet.isSome = true → a.c ∈ order) ∧
   ∀ p ∈ order.zip h.slots, ∀ w, p.2.who = some w → w = p.1
 
-/-- every call takes effect (its introduction is stamped) between its invocation and its return -/
+/-- every call takes effect (its introduction is stamped) between its invocation — and its prepare, where that was
+observed — and its return -/
 def RealTime (h : History) (order : List Nat) : Prop :=
-  ∀ p ∈ order.zip h.slots, ∃ a ∈ h.calls, a.c = p.1 ∧ a.tInv < p.2.t ∧ ∀ tr, a.tRet = some tr → p.2.t < tr
+  ∀ p ∈ order.zip h.slots, ∃ a ∈ h.calls, a.c = p.1 ∧ a.tInv < p.2.t ∧ (∀ tr, a.tRet = some tr → p.2.t < tr) ∧
+    ∀ tp, a.tPrep = some tp → a.tInv < tp ∧ tp < p.2.t
+
+/-- the root installed by the i-th introduction holds the abstract index after the first i+1 batches of `order` -/
+def SlotsOK (h : History) (order : List Nat) : Prop :=
+  ∀ p ∈ h.slots.zipIdx, p.1.content.Perm (h.absAfter order (p.2 + 1))
 
 /-- every reader shows the abstract index after a prefix of `order` — the prefix its epoch names —, it has seen every
 root published before it was requested and none published after it was obtained, and later readers see later roots -/
@@ -279,11 +303,12 @@ def FinalOK (h : History) (order : List Nat) : Prop := h.final.Perm (h.absAfter 
 
 /-- **the specification of a recorded history**: `order` explains it -/
 def Accepts (h : History) (order : List Nat) : Prop :=
-  RecordingWF h ∧ OrderOK h order ∧ RealTime h order ∧ ReadersOK h order ∧ FinalOK h order
+  RecordingWF h ∧ OrderOK h order ∧ RealTime h order ∧ SlotsOK h order ∧ ReadersOK h order ∧ FinalOK h order
 
 instance (h : History) : Decidable (RecordingWF h) := by unfold RecordingWF; exact inferInstance
 instance (h : History) (o : List Nat) : Decidable (OrderOK h o) := by unfold OrderOK; exact inferInstance
 instance (h : History) (o : List Nat) : Decidable (RealTime h o) := by unfold RealTime; exact inferInstance
+instance (h : History) (o : List Nat) : Decidable (SlotsOK h o) := by unfold SlotsOK; exact inferInstance
 instance (h : History) (o : List Nat) : Decidable (ReadersOK h o) := by unfold ReadersOK; exact inferInstance
 instance (h : History) (o : List Nat) : Decidable (FinalOK h o) := by unfold FinalOK; exact inferInstance
 instance (h : History) (o : List Nat) : Decidable (Accepts h o) := by unfold Accepts; exact inferInstance
@@ -299,7 +324,8 @@ def History.unobserved (h : History) : List Call :=
 
 /-- a call may stand in a slot only if the slot's stamp lies in the call's interval -/
 def fits (a : Call) (s : Slot) : Bool :=
-  a.tInv < s.t && (match a.tRet with | some tr => s.t < tr | none => true)
+  a.tInv < s.t && (match a.tRet with | some tr => s.t < tr | none => true) &&
+    (match a.tPrep with | some tp => tp < s.t | none => true)
 
 /-- all ways to fill the slots, in order: an observed slot keeps its client; an unobserved one takes any remaining
 unobserved call whose interval contains the slot's stamp -/
@@ -348,14 +374,17 @@ def judge (h : History) : Verdict :=
         if good.isEmpty then
           if loose.any (fun o => decide (OrderOK h o)) then .realtime "an-introduction-lies-outside-its-call"
           else .notLinearizable "introductions-do-not-match-the-calls"
-        -- some placement respects real time: is it the final content or a reader that no placement explains?
-        else if good.any (fun o => decide (FinalOK h o)) then .readerNotPrefix "a-reader-is-not-explained"
-        else if good.any (fun o => decide (ReadersOK h o)) then .notLinearizable "final-content-not-explained"
-        else .notLinearizable "final-content-and-a-reader-not-explained"
+        -- some placement respects real time: is it a published root, the final content or a reader that no placement explains?
+        else
+          let good' := good.filter (fun o => decide (SlotsOK h o))
+          if good'.isEmpty then .notLinearizable "a-published-root-is-not-the-state-after-a-prefix"
+          else if good'.any (fun o => decide (FinalOK h o)) then .readerNotPrefix "a-reader-is-not-explained"
+          else if good'.any (fun o => decide (ReadersOK h o)) then .notLinearizable "final-content-not-explained"
+          else .notLinearizable "final-content-and-a-reader-not-explained"
 
 /-! ## the history a model execution records -/
 
-def Phase.toCall (c : Nat) (p : Phase) : Call := ⟨c, p.tInv, p.tRet?, p.batch⟩
+def Phase.toCall (c : Nat) (p : Phase) : Call := ⟨c, p.tInv, p.tRet?, p.batch, p.tPrep?⟩
 
 def State.history (s : State) : History :=
   { calls := s.ids.filterMap (fun c => (s.phase c).map (Phase.toCall c)),
